@@ -144,7 +144,9 @@ Proof.
   intros Hacc Hp Hsh Hnd Hpos Hinit.
   unfold ds_init_sharded, sh_init_gate in Hinit. cbn [bN1 bN7 repaired negb andb app] in Hinit.
   set (ps := leaves t) in *.
-  destruct (too_small c (snd (sh_dims c ps))) eqn:Hts; [discriminate|].
+  destruct (sh_too_small c ps) eqn:Hts'; [discriminate|].
+  assert (Hts : too_small c (snd (sh_dims c ps)) = false)
+    by (unfold sh_too_small in Hts'; apply orb_false_elim in Hts'; apply Hts').
   cbn [obind] in Hinit.
   destruct (sh_dims c ps) as [n m] eqn:Hd. cbn [snd] in Hts.
   inversion Hinit as [Hl]. clear Hinit.
